@@ -83,6 +83,8 @@ def main():
             else "failing-input VIOLATION (property oracle on the implementation, plus model/implementation diff)")
         if m.get("detected_note"):
             how = m["detected_note"]
+        if m.get("origin"):
+            d = d + " (" + m["origin"] + ")"
         out.append("| %s | %s | %s | %s | %s |" % (d, m.get("property"), cut(m.get("what_it_breaks", ""), 220).replace("|", "\\|"),
                                                  cut(m.get("needs_to_manifest", ""), 140).replace("|", "\\|"), how))
     out.append("")
